@@ -351,5 +351,5 @@ MANIFEST = {
     "level": "memory-safety and ownership skeleton only: clamp form and domination, returned-object retention (same object), record-origin translation on "
              "every descent, closed writer set of the record table and closed caller set of the buffer destructor, checked allocation sizes. The byte-string "
              "algebra (which bytes each operation denotes for every tree) is a functional-correctness statement over recursive data and is NOT decided",
-    "note": "dd1->size + dd2->size in concat is unchecked (sizes of real objects cannot overflow unless a transform produced a bogus size: see C20 known finding)",
+    "note": "dd1->size + dd2->size in concat is unchecked (sizes of real objects cannot overflow unless a transform produced a bogus size: that was the C20-BD5 defect, repaired in /repo 07455f8)",
 }
